@@ -166,8 +166,12 @@ CHECKS["C13"] = {
             "AverageLearner: after a history that ends with no pending points the restored learner and the original agree on every "
             "observable (both loss tables, loss(), ask(n) for every n) after EVERY common continuation of asks, tells, batches, pending "
             "marks and discards (l1d_restore_bisimilar, l1d_same_content_bisimilar, avg_restore_bisimilar; the 'no pending points' "
-            "proviso is necessary - kernel-checked counterexamples). LearnerND / IntegratorLearner / AverageLearner1D / Learner2D have no "
-            "model of their persistence: there the deciding part is the search (listed as partial). Search: real save/load (gzip on/off), "
+            "proviso is necessary - kernel-checked counterexamples). Learner2D (L2D.lean, restores in the bit-exact lock-step of this check): a file / "
+            "copy_from restore returns the same data (keys, values, order) and is the original with its suggestion stack replaced by the "
+            "unevaluated corners - equal to the original exactly when the original's stack is that corner stack (restoreFile_eq_self_iff; the "
+            "recorded stack finding is the kernel-checked witness Ex.file_restore_drops_stack); a pickle of a learner without pending points "
+            "is the SAME state, hence agrees on every later answer (l2d_pickle_same_future). LearnerND / IntegratorLearner / AverageLearner1D "
+            "have no model of their persistence: there the deciding part is the search (listed as partial). Search: real save/load (gzip on/off), "
             "pickle, cloudpickle, copy_from for 19 learner kinds after histories ending with no pending points (incl. very early saves); "
             "data exactly, loss and next asks exactly (pickles) or to 1e-9 (file/copy).",
     "design_ref": "DESIGN.md section 6 C13",
@@ -184,7 +188,9 @@ CHECKS["C11"] = {
             "permuted single tells, one batch through either tell_many path, and arbitrary histories with pending points that end "
             "with the same data and pending set agree in both loss tables (as lists, in container order), loss(real) and ask(n) for "
             "all n. With the default factor 2 the statement is false of code and model (kernel-checked counterexample; recorded "
-            "finding). Search: real point sets re-told in all permutations (<= 5) / random orders / batches, with pending points.",
+            "finding). (Learner2D's bookkeeping, although not named by the property: permuted tells of distinct points give the same data map, "
+            "pending set and stack - l2d_tells_order_irrelevant.) Search: real point sets re-told in all permutations (<= 5) / random orders / "
+            "batches, with pending points, also with end points that are pending instead of known.",
     "design_ref": "DESIGN.md section 6 C11", "note": _L1D_NOTE, "technique": T,
 }
 CHECKS["C12"] = {
@@ -300,7 +306,10 @@ CHECKS["C04"] = {
             "(sub)loss = vol(sub)/vol(simplex)*loss), pop returns a live entry of maximal priority, with nothing pending ask "
             "refines a simplex of maximal loss and reports that loss. lnd_ask_fresh (points distinct, not evaluated, not pending) "
             "is proved under the state-level hypothesis ChooseFresh (violated by the real code: known finding); the unconditional "
-            "lnd_ask_fresh_statement stays a stated Prop. Tie: real LearnerND in bit-exact lock-step (2-D/3-D, rect/ConvexHull, 3 losses, "
+            "lnd_ask_fresh_statement stays a stated Prop. In dimension 2 the geometric side conditions are DERIVED from the modelled point choice "
+            "(Choose.lean) and barycentric test: the chosen point is the centroid or the midpoint of a longest edge in normalised coordinates, "
+            "is accepted by point_in_simplex for its simplex and for the owning simplex, and lies in a rectangular domain (ChooseGeom2.lean; "
+            "lnd_*_dim2). Tie: real LearnerND in bit-exact lock-step (2-D/3-D, rect/ConvexHull, 3 losses, "
             "scalar/vector, runner-like interleavings, non-committing asks, discards). Search: the clauses of C04 on the real "
             "learner after every op with exact rational geometry (incl. every pending point rebound by a tell subdivides every "
             "new simplex it lies in); every history is then replayed on a fresh learner with NOTHING observed in between (no "
